@@ -321,17 +321,18 @@ def run(tier, replay=None):
     ncpu = min(8, os.cpu_count() or 4)
     # worker processes are forked before any thread exists
     pool = multiprocessing.get_context('fork').Pool(ncpu)
+    ex = ThreadPoolExecutor(max_workers=12)
     try:
-        return _run(ctx, quick, rnd, pool, X, R)
+        return _run(ctx, quick, rnd, pool, ex, X, R)
     finally:
+        ex.shutdown(wait=False, cancel_futures=True)
         pool.terminate()
         pool.join()
 
 
-def _run(ctx, quick, rnd, pool, X, R):
+def _run(ctx, quick, rnd, pool, ex, X, R):
     sweeps = [('quick', 'MC_Auth.cfg')] if quick else \
         [('wide', 'MC_Auth_wide.cfg'), ('stack', 'MC_Auth_stack.cfg'), ('conf', 'MC_Auth_conf.cfg')]
-    ex = ThreadPoolExecutor(max_workers=12)
     W = 4
     jobs = {}
     # 1. model checking (+ case dumps), all parts at once
@@ -548,7 +549,6 @@ def _run(ctx, quick, rnd, pool, X, R):
         n_muts += len(lst)
     if not (muts['AuthTrace'] and muts['SessionsTrace'] and muts['VHostTrace']) and not ctx.violations:
         raise tlc.MachineryError('self-test found nothing to corrupt: %s' % {k: len(v) for k, v in muts.items()})
-    ex.shutdown(wait=True)
     mark('selftest')
     cov['phase_s'] = phase
 
